@@ -163,6 +163,11 @@ ROWS["cstrv_in"] = dict(yaml="char **{n} +intent(in)", cxx="char **{n}", ty="str
                         lib_in='{{ char b_[200]; b_[0] = 0; for (int i_ = 0; i_ < {m}; i_++) {{ if (i_) strcat(b_, "|"); strcat(b_, {n}[i_]); }} vt_str(b_, -1); }}',
                         acc="for (int i_ = 0; i_ < {m}; i_++) acc += (long)strlen({n}[i_]);", vals=STRV_VALS)
 
+# +hidden (docs/input.rst): the argument is not part of the Fortran API, the wrapper passes a local; C callers pass it
+ROWS["int_phidden"] = dict(yaml="int *{n} +intent(out)+hidden", cxx="int *{n}", ty="int", intent="out", api="hidden",
+                           lib_set="*{n} = (int)(acc % 50);", lib_out="vt_int(*{n});",
+                           c_decl="int {n} = -77;", c_arg="&{n}", c_out="vt_int({n});", vals=INT_VALS)
+
 # typedefs (docs/tutorial.rst "Typedef"): the library's header names a native type; the wrappers see through it
 ROWS["tdint_v"] = dict(ROWS["int_v"], yaml="TypeID {n}", cxx="TypeID {n}")
 ROWS["tdstr_in"] = dict(ROWS["cstr_in"], yaml="const Name *{n}", cxx="const Name *{n}")
@@ -288,6 +293,9 @@ def base_cases():
     c.append(F("f20", "T", [P("T_v", "a"), P("int_v", "n"), P("dbl_pout", "o")], template=["int", "double"]))
     c.append(F("f21", "int", [P("int_v", "k"), P("T_v", "a")], template=["int", "double"]))
     c.append(F("f17", "int", [P("double_v", "x"), P("int_v", "a", default="7"), P("bool_v", "b", default="true")]))
+    # a hidden argument on functions nothing else gives a Fortran wrapper to
+    c.append(F("f28", "int", [P("int_v", "a"), P("int_phidden", "st")]))
+    c.append(F("f29", "void", [P("int_phidden", "st"), P("double_v", "x")]))
     return c
 
 
@@ -376,6 +384,7 @@ for _k, _T, _ty, _fd, _vals in NATIVE_KINDS:
     else:
         FROWS[_k + "_v"] = dict(decl=_fd + " :: {n}", set="{n} = {v}", arg="{n}", fin="call vt_int(int({n}, C_LONG))", vk="int")
 
+FROWS["int_phidden"] = dict(decl="integer(C_INT) :: {n}", set="{n} = -77", arg=None, vk="int")
 FROWS["cstrv_in"] = dict(decl="character(len={L}) :: {n}(4)", set="{n} = [character(len={L}) :: {v}]", arg="{n}(1:{m})",
                          fin="call vt_strv({n}(1:{m}))", vk="strv")
 
